@@ -615,8 +615,10 @@ func (vlog *valueLog) open(db *DB) error {
 		if vlog.opt.ReadOnly {
 			flags = os.O_RDONLY
 		}
+		// z.NewFile: a zero-length file left by a crash inside its creation or deletion; it has
+		// been sized and given a header like a new one.
 		if err := lf.open(vlog.fpath(fid), flags,
-			2*vlog.opt.ValueLogFileSize); err != nil {
+			2*vlog.opt.ValueLogFileSize); err != nil && err != z.NewFile {
 			return y.Wrapf(err, "Open existing file: %q", lf.path)
 		}
 		// We shouldn't delete the maxFid file.
